@@ -314,7 +314,7 @@ func TestC14_RealRotation(t *testing.T) {
 			}
 			_ = os.Mkdir(filepath.Join(dir, name+".20190101000000"), 0o755)
 			_ = os.Chtimes(filepath.Join(dir, name+".20190101000000"), old, old)
-			deadline := time.Now().Add(6 * time.Second)
+			deadline := time.Now().Add(20 * time.Second) // generous: the loop ends as soon as the victims are gone
 			gone := false
 			for time.Now().Before(deadline) && !gone {
 				a.Write([]byte("tick\n"))
@@ -326,7 +326,7 @@ func TestC14_RealRotation(t *testing.T) {
 			time.Sleep(100 * time.Millisecond)
 			l := list(dir)
 			if !gone {
-				errs <- fmt.Errorf("after real rotations over 6 s the expired own files %v were not removed", victims)
+				errs <- fmt.Errorf("after real rotations over 20 s the expired own files %v were not removed", victims)
 				return
 			}
 			for _, k := range append(keepers, name+".20190101000000") {
